@@ -3,6 +3,7 @@ package c07
 import (
 	"bytes"
 	"crypto/rand"
+	"encoding/asn1"
 	"fmt"
 	"io"
 	"math/big"
@@ -417,6 +418,59 @@ func TestReaderAndVerifier(t *testing.T) {
 			evid.Count("verifier-soft-error-on-bad-signature", 1)
 		} else {
 			evid.Count("verifier-hard-error-on-bad-signature", 1)
+		}
+
+		// The binding must not depend on how far evidence verification gets: bundles whose AA
+		// evidence is refused BEFORE any signature is looked at (DG15 absent, algorithm of another
+		// key type, empty or oversized signature) still carry a recorded nonce; with a supplied
+		// challenge that differs from it, offline verification hard-fails.  Control: the same bundle
+		// with the matching challenge must not be refused for the nonce (otherwise the variant says
+		// nothing and is only counted).
+		type variant struct {
+			name  string
+			apply func(d *document.DocumentEx)
+		}
+		otherAlg := asn1.ObjectIdentifier{1, 2, 840, 10045, 2, 1}
+		if docEx.Session.ActiveAuthResult.Evidence.Algorithm.Equal(otherAlg) {
+			otherAlg = asn1.ObjectIdentifier{1, 2, 840, 113549, 1, 1, 1}
+		}
+		variants := []variant{
+			{"dg15-absent", func(d *document.DocumentEx) { d.Document.Mf.Lds1.Dg15 = nil }},
+			{"algorithm-other-key-type", func(d *document.DocumentEx) { d.Session.ActiveAuthResult.Evidence.Algorithm = otherAlg }},
+			{"signature-empty", func(d *document.DocumentEx) { d.Session.ActiveAuthResult.Evidence.Signature = []byte{} }},
+			{"signature-oversized", func(d *document.DocumentEx) {
+				d.Session.ActiveAuthResult.Evidence.Signature = bytes.Repeat([]byte{0x5A}, 5000)
+			}},
+			{"signature-garbage", func(d *document.DocumentEx) { d.Session.ActiveAuthResult.Evidence.Signature = []byte{1, 2, 3} }},
+		}
+		for _, v := range variants {
+			d := *docEx
+			sess := d.Session
+			aa := *sess.ActiveAuthResult
+			ev := *aa.Evidence
+			ev.Nonce = append([]byte{}, other...)
+			aa.Evidence = &ev
+			sess.ActiveAuthResult = &aa
+			d.Session = sess
+			v.apply(&d)
+			b3, err := d.ToCbor()
+			if err != nil {
+				evid.Count("binding-variant-not-serialisable/"+v.name, 1)
+				continue
+			}
+			// control: supplied challenge == recorded nonce
+			if _, cerr := verify(other, b3); cerr != nil {
+				evid.Count("binding-variant-control-hard-error/"+v.name, 1)
+				continue
+			}
+			evid.Count("binding-variant/"+v.name, 1)
+			if out, err := verify(chal, b3); err == nil || out != nil {
+				r2 := map[string]any{"variant": v.name}
+				for k, x := range repro {
+					r2[k] = x
+				}
+				evid.Fail(rt, "verifier-binding", r2, "offline verification with challenge %x did not hard-fail although the recorded nonce is %x (evidence variant %s)", chal, other, v.name)
+			}
 		}
 	})
 }
